@@ -18,7 +18,7 @@ PRESENTATION = [[], ["--with-derive-hash", "--with-derive-partialeq", "--with-de
 
 def feature_group(rec):
     f = rec.features
-    for special in ("complex-long-double", "over-aligned-typedef", "member-packed", "vector8"):
+    for special in ("complex-long-double", "over-aligned-typedef", "member-packed", "vector8", "explicit-padding-tail"):
         if special in f:
             return special
     if "packed" in f or "pragma-pack" in f:
@@ -150,6 +150,22 @@ def run(ck):
                           {"name": "t", "decl": "char t", "bitfield": None, "anon": False}, {"name": "arr", "decl": "union UN%d arr[2]" % i, "bitfield": None, "anon": False}]
             uni.append(h_)
         batches.append((-5, True, uni, "\n".join(x.text() for x in uni)))
+        # records that END in a bit-field unit, generated with --explicit-padding: add_tail_padding and pad_struct must pad the tail once
+        # (C02/Properties.v tail_padding_then_pad_struct_adds_nothing; repaired defect: the tail used to be padded twice)
+        bft = []
+        for i, members in enumerate((["long long a", "unsigned b : 3"], ["int a : 1"], ["char c", "int b : 5"], ["short s", "unsigned b : 3", "unsigned c2 : 9"],
+                                     ["double d", "char c", "unsigned f : 1"], ["int a", "unsigned b : 17", "char t : 2"], ["long a", "short b : 9"])):
+            rec = e2e.Rec("BT%d" % i)
+            for m in members:
+                nm = re.match(r".*?(\w+)\s*(?::\s*\d+)?$", m).group(1)
+                bf = None
+                if ":" in m:
+                    base = m.split(":")[0].split()[0]
+                    bf = (base if base in ("int", "long", "short", "char", "unsigned") else "int", int(m.split(":")[1]))
+                rec.members.append({"name": nm, "decl": m, "bitfield": bf, "anon": False})
+            rec.features = {"bitfield", "explicit-padding-tail"}
+            bft.append(rec)
+        batches.append((-6, False, bft, "\n".join(x.text() for x in bft)))
         for b in range(10 if quick else 150):
             plain = b % 5 != 4 and b % 5 != 3
             g = e2e.Gen(r, bitfields=not plain, attrs=not plain)
@@ -158,7 +174,7 @@ def run(ck):
 
         def one(bt):
             b, plain, recs, hdr = bt
-            return bt, measure(bindgen, tmp, "b%d" % (b if b >= 0 else 9999 - b), recs, hdr, (["--allowlist-type", "N[0-9]+"] if b == -2 else []), trace=True)
+            return bt, measure(bindgen, tmp, "b%d" % (b if b >= 0 else 9999 - b), recs, hdr, (["--allowlist-type", "N[0-9]+"] if b == -2 else ["--explicit-padding"] if b == -6 else []), trace=True)
         with ThreadPoolExecutor(max_workers=vlib.NCPU) as ex:
             results = list(ex.map(one, batches))
         traces = []
@@ -294,10 +310,10 @@ def replay_traces(ck, traces):
         bodies.append("""From Coq Require Import NArith List Bool.
 From BG Require Import C02.Model C02.Exec.
 Import ListNotations. Open Scope N_scope.
-Definition runs : list ((bool * bool * bool * option (N * N)) * list (call * option sview * option (N * N))) := [
+Definition runs : list (bool * (bool * bool * bool * option (N * N)) * list (call * option sview * option (N * N))) := [
 %s
 ].
-Eval vm_compute in map (fun r => match r with (env, steps) => replay_mismatch env steps end) runs.
+Eval vm_compute in map (fun r => match r with (force, env, steps) => replay_mismatch_f force env steps end) runs.
 """ % ";\n".join(terms[a:a + shard]))
     if not os.path.exists(os.path.join(COQ, "theories", "C02", "Exec.v")):
         return
@@ -369,7 +385,8 @@ def trace_term(lines):
             return None
     if env is None or not steps:
         return None
-    return "((%s, %s, %s, %s), [%s])" % ("true" if env[0] == "1" else "false", "true" if env[1] == "1" else "false", "true" if env[2] == "1" else "false", env[3], "; ".join(steps))
+    force = any("| add_tail_padding " in l and " force=1 " in l for l in lines)
+    return "(%s, (%s, %s, %s, %s), [%s])" % ("true" if force else "false", "true" if env[0] == "1" else "false", "true" if env[1] == "1" else "false", "true" if env[2] == "1" else "false", env[3], "; ".join(steps))
 
 
 def replay(ck, path):
